@@ -96,7 +96,8 @@ def idict_ops():
     v = st.integers(0, 5)
     op = st.one_of(st.tuples(st.just("set"), k, v).map(list), st.tuples(st.just("set"), k, v).map(list),
                    st.tuples(st.just("get"), k).map(list), st.tuples(st.just("del"), k).map(list),
-                   st.tuples(st.just("pop"), k).map(list), st.tuples(st.just("pop_nodefault"), k).map(list),
+                   st.tuples(st.just("pop"), k, st.integers(0, 7)).map(list), st.tuples(st.just("pop_nodefault"), k).map(list),
+                   st.tuples(st.just("getdef"), k, st.integers(0, 7)).map(list),
                    st.tuples(st.just("setdefault"), k, v).map(list), st.just(["popitem"]), st.just(["mutate"]),
                    st.just(["clear"]), st.tuples(st.just("contains"), k).map(list), st.just(["copy_eq"]))
     return st.lists(op, min_size=1, max_size=30).map(lambda ops: {"ops": ops})
